@@ -198,6 +198,14 @@ func checkC16(r *Run) {
 					run(c, tr, true)
 				}
 			}
+			// the name padded with 1..24 copies of one byte (NUL, SP, '0', '-', 0xff, the name's own last byte), after or
+			// before it: still another name, whatever key width or bucket function the lookup uses
+			for _, pad := range []byte{0x00, ' ', '0', '-', 0xff, base[len(base)-1]} {
+				for k := 1; k <= 24; k++ {
+					run(c, append(append([]byte(nil), base...), bytes.Repeat([]byte{pad}, k)...), true)
+					run(c, append(bytes.Repeat([]byte{pad}, k), base...), true)
+				}
+			}
 		}
 	})
 	// through the header parser with white space before the colon, and with names that are a table name plus bytes a
